@@ -538,6 +538,12 @@ def judge_ranges(spec, rec):
     const = {'lo': [t0, str(t0)], 'hi': [t0, str(t0)], 'tree': C(mask), 'tvar': 'n', 'var': 'n'}
     a, s = (swept, const) if spec['role'] == 'author' else (const, swept)
     full = {'seed': 0, 'eo': eo, 'a': a, 's': s, 'vars': {}, 'samples': 1, 'tol': 0.25, 'pos': list(FIELDS)}
+    # the cutoff for INFINITE limits must not touch finite ones: two thirds of the grid run with a cutoff that is
+    # smaller than most of the finite limits (a seeded change clipped finite limits to the cutoff)
+    iv = (None, 5, 7.0)[(lo + 2 * hi + eo) % 3]
+    if iv is not None:
+        full['infty_val'] = iv
+        rec.cls('range/cutoff-below-finite-limits')
     (status, val), answers, inp = run_library(full, rec)
     label = {0: 'all', 1: 'odd', 2: 'even'}[eo]
     rec.cls('range/' + label)
